@@ -25,6 +25,11 @@ CHECKS = {
    note="Trusted: the harness body calls NextFairnessCounter the way generated either/with code does; single task.",
    technique="deterministic simulation (single task): seeded retry/structure-change schedules against a combinatorial oracle, shrunk replay files",
    ref="6 (C10)"),
+ "C12": dict(
+   text="Replica-level simulation of the real GCounter, AWORSet and LWWSet values: 2-5 replicas, seeded sequences of local updates and full-state messages through a transport that reorders, duplicates, delays and drops, every state through encoding/gob, LWW timestamps from the simulated clock; after every update and merge the replica's Read is compared with a reference model over the set of updates it knows (counter = sum, add-wins = adds not observed by a remove, LWW = latest operation per element); replicas with equal knowledge must read equally; commutativity, associativity, idempotence, inflation, merge = union and gob round-trip are judged observationally on reached states. AWORSet has a recorded known finding (information loss after a concurrent add and remove of one element); AWORSet histories without such concurrency, GCounter and LWWSet are judged in full.",
+   note="Trusted: reference models in the harness; distinct LWW timestamps; equality of states judged by Read now and after identical continuations (sound, may miss differences no continuation in the sample exposes).",
+   technique="deterministic simulation at replica level: seeded operation/delivery/duplication/loss sequences, reference-model and algebraic-law oracles over the recorded history, shrunk replay files",
+   ref="6 (C12)"),
 }
 PENDING = "check not built yet in this session (planned, see DESIGN.md section 6); not claimed until its harness passes the determinism self-test"
 
